@@ -566,8 +566,9 @@ def regular_members_only(arch, oid):
                 out.append(("isreg", e.func.value.id))
         return out
 
-    mf = MustFacts(gen_cond=gen_cond, need=lambda n: [(("isreg", arg_of[id(n)].id), f"line {n.lineno}")] if any(n is r for r in reads) else [],
-                   kill_names=lambda fact: [fact[1]])
+    MF = guardlib.carrying(MustFacts, guardlib.carried_facts(f, gen_cond, MustFacts))
+    mf = MF(gen_cond=gen_cond, need=lambda n: [(("isreg", arg_of[id(n)].id), f"line {n.lineno}")] if any(n is r for r in reads) else [],
+            kill_names=lambda fact: [fact[1]])
     res = mf.run(f)
     bad = [r for r in res if not r.ok]
     return ground_obligation(oid, bool(res) and not bad, "; ".join(f"{r.desc}: the member read here is not known to be a regular file (a link member declares size 0 "
